@@ -656,26 +656,30 @@ def _render_node(n, d, out):
         out.append("%s%s%s" % (d["cs"], n[1].replace("{{", d["os"]).replace("}}", d["oe"]), d["ce"]))
     elif k == "liquid":
         lines = []
-        _liquid_lines(n[1], lines)
+        _liquid_lines(n[1], lines, d.get("lc", "#"))
         out.append("%s liquid\n%s\n%s" % (d["ts"], "\n".join(lines), d["te"]))
     else:
         raise AssertionError(k)
 
 
-def _liquid_lines(nodes, lines):
+def _liquid_lines(nodes, lines, marker="#"):
+    """Lines of a {% liquid %} tag.  Its line-comment marker is the environment's
+    comment_start_string without '{' when template comments are on (documented
+    behaviour of the liquid tag), else '#'."""
     for n in nodes:
         if n[0] == "tag":
-            lines.append((n[1] + " " + n[2]).rstrip())
+            name = marker if n[1] == "#" else n[1]
+            lines.append((name + " " + n[2]).rstrip())
         elif n[0] == "block":
             _, name, args, body, clauses, end, _w = n
             lines.append((name + " " + args).rstrip())
-            _liquid_lines(body, lines)
+            _liquid_lines(body, lines, marker)
             for cn, ca, cb in clauses:
                 lines.append((cn + " " + ca).rstrip())
-                _liquid_lines(cb, lines)
+                _liquid_lines(cb, lines, marker)
             lines.append(end)
         elif n[0] == "seq":
-            _liquid_lines(n[1], lines)
+            _liquid_lines(n[1], lines, marker)
 
 
 def count_nodes(nodes):
